@@ -486,6 +486,9 @@ def body(chk, db, cfgname):
                 good = F.equal(got, a * w) and starts_zero_and_returned(f, ctx, A)
         if good:
             r4.ok(site, f.loc(), "sum_n A(n,n)*w(n) over all n of the block", cfgname)
+        elif len(acc) != 1 or full_index_loop(f, ctx, acc[0], [("mcall", "Eigen::SparseMatrix::outerSize", ("field", lh.FOP + lh.ROWMAJOR, Ap)), ("mcall", "Eigen::SparseMatrix::rows", ("field", lh.FOP + lh.ROWMAJOR, Ap)),
+                                                                 ("mcall", "Eigen::SparseMatrix::cols", ("field", lh.FOP + lh.ROWMAJOR, Ap)), ("mcall", "Eigen::SparseMatrix::outerSize", ("field", lh.FOP + lh.COLMAJOR, Ap))]) is None:
+            unk(f, "the block contribution is not accumulated by one += inside a full loop over the states of the block")
         else:
             r4.bad(site, f.loc(), "block contribution is not sum over all n of A(n,n)*DMpart.getWeight(n)", cfgname)
 
